@@ -139,62 +139,63 @@ def run(ctx) -> Result:
                   bad_detail=f"returned {ret!r}, constructor args {captured!r}, effects {evl.effects!r}")
     check_equivalence(res, proj, ctx.thorough, "G3")
 
-    # ------------------------------------------------------------------ G4
-    for name, (table, nick) in PRESETS.items():
-        m = proj.method(cls, name)
-        res.saw(m)
-        p = Sym("p")
-        captured = []
-
-        def ctor(ev, call, captured=captured):
-            captured.append([ev.ev(a) for a in call.args] + [ev.ev(k.value) for k in call.keywords])
-            return "NEW"
-        env = {}
-        if m.param_names:
-            env[m.param_names[0]] = p
-        evl = Evaluator(env, funcs={"ScoringScheme": ctor})
-        try:
-            ret = evl.run(m.body_without_docstring())
-        except Unsupported as exc:
-            raise AnalysisError(f"{m.qualname}: unsupported construct: {exc}")
-        want = [[Lin.of(x) for x in row] for row in table(p)]
-        got = [[Lin.of(x) for x in row] for row in captured[0][0]] if captured and captured[0] else None
-        res.check(ret == "NEW" and got == want, "G4", f"preset:{name}", m.loc(),
-                  ok_detail=f"builds {table('p')}", bad_detail=f"builds {captured!r}, documented {table('p')}")
-    for wname, target in P1_WRAPPERS.items():
-        m = proj.method(cls, wname)
-        res.saw(m)
-        body = m.body_without_docstring()
-        good = len(body) == 1 and isinstance(body[0], ast.Return) and isinstance(body[0].value, ast.Call) \
-            and (dotted(body[0].value.func) or "").split(".")[-1] == target and len(body[0].value.args) == 1 \
-            and isinstance(body[0].value.args[0], ast.Constant) and body[0].value.args[0].value == 1
-        res.check(good, "G4", f"preset:{wname}", m.loc(), ok_detail=f"= {target}(1.)",
-                  bad_detail=f"is not {target}(1.): {src(body[0]) if body else ''}")
-    nn = proj.method(cls, "get_nickname")
-    res.saw(nn)
-    for chosen in list(PRESETS) + [None]:
-        def is_eq(ev, call, chosen=chosen):
-            a = call.args[0]
-            if not (isinstance(a, ast.Call)):
-                raise Unsupported("nickname compares with a non-preset", call)
-            nm = (dotted(a.func) or "").split(".")[-1]
-            nm = P1_WRAPPERS.get(nm, nm)
-            if nm not in PRESETS:
-                raise Unsupported(f"nickname compares with unknown preset {nm}", call)
-            if a.args and not (isinstance(a.args[0], ast.Constant) and a.args[0].value == 1):
-                raise Unsupported("nickname preset with p != 1", call)
-            return nm == chosen
-        evl = Evaluator({"self": Sym("self")}, funcs={".is_equivalent_to": is_eq, "str": lambda ev, call: "STR(self)"})
-        try:
-            ret = evl.run(nn.body_without_docstring())
-        except Unsupported as exc:
-            raise AnalysisError(f"{nn.qualname}: unsupported construct: {exc}")
-        want = PRESETS[chosen][1] if chosen else "STR(self)"
-        res.check(ret == want, "G4", f"get_nickname:{chosen or 'other'}", nn.loc(), ok_detail=f"-> {want}",
-                  bad_detail=f"returns {ret!r} for a scheme equivalent to {chosen or 'no preset'}, expected {want!r}")
+    # ------------------------------------------------------------------ G4 (evaluation on real instances)
+    _check_presets(res, proj, cls)
     res.not_decided.append("homogeneity of Kemeny scores under scaling (linear algebra over vdot, not code shape)")
     res.not_decided.append("exactness of float ratios in the proportionality test")
     return res
+
+
+def _check_presets(res: Result, proj, cls):
+    """The preset builders and get_nickname evaluated on real ScoringScheme instances: each builder yields its
+    documented table for several p; a scheme gets a preset's nickname iff it is a positive multiple of that preset with
+    p = 1, and its own text otherwise."""
+    from .datamodel import World
+    w = World(proj)
+
+    def vectors(inst):
+        return [list(v) for v in inst.attrs["_penalty_vectors"]] if hasattr(inst, "attrs") and "_penalty_vectors" in inst.attrs else None
+    for name, (table, nick) in PRESETS.items():
+        m = proj.method(cls, name)
+        res.saw(m)
+        bad = None
+        ps = (1.0, 0.5, 0.25) if m.explicit_params else (None,)
+        for pv in ps:
+            st, inst = w.safe(name, lambda: w.rt.call_static(cls, name, *([pv] if pv is not None else [])))
+            want = [[float(x) for x in row] for row in table(pv if pv is not None else 1.0)]
+            if st != "ok" or vectors(inst) != want:
+                bad = bad or (pv, vectors(inst) if st == "ok" else inst, want)
+        res.check(bad is None, "G4", f"preset:{name}", m.loc(), ok_detail=f"builds {table('p')}",
+                  bad_detail=f"p={bad[0]}: builds {bad[1]!r}, documented {bad[2]}" if bad else "")
+    for wname, target in P1_WRAPPERS.items():
+        m = proj.method(cls, wname)
+        res.saw(m)
+        st, inst = w.safe(wname, lambda: w.rt.call_static(cls, wname))
+        want = [[float(x) for x in row] for row in PRESETS[target][0](1.0)]
+        res.check(st == "ok" and vectors(inst) == want, "G4", f"preset:{wname}", m.loc(), ok_detail=f"= {target}(1.)",
+                  bad_detail=f"builds {vectors(inst) if st == 'ok' else inst!r}, {target}(1.) is {want}")
+    nn = proj.method(cls, "get_nickname")
+    res.saw(nn)
+    for chosen in list(PRESETS) + [None]:
+        bad = None
+        if chosen is not None:
+            base = [[float(x) for x in row] for row in PRESETS[chosen][0](1.0)]
+            cases = [(f"{k} x {chosen}(1)", [[x * k for x in base[0]], [x * k for x in base[1]]], PRESETS[chosen][1])
+                     for k in (1.0, 3.0, 0.5)]
+        else:
+            cases = [("unifying p=0.5", [[0., 1., .5, 0., 1., .5], [.5, .5, 0., .5, .5, 0.]], None),
+                     ("generic", [[0., 2., 1., 1., 3., 4.], [1., 1., 0., 2., 2., 5.]], None),
+                     ("B of the unifying scheme, T doubled", [[0., 1., 1., 0., 1., 1.], [2., 2., 0., 2., 2., 0.]], None)]
+        for label, pen, want in cases:
+            sch = w.rt.new(cls, [[list(pen[0]), list(pen[1])]], {})
+            st, got = w.safe("get_nickname", w.call, sch, "get_nickname")
+            if want is None:
+                st2, want = w.safe("__str__", w.call, sch, "__str__")
+            if st != "ok" or got != want:
+                bad = bad or (label, got, want)
+        res.check(bad is None, "G4", f"get_nickname:{chosen or 'other'}", nn.loc(),
+                  ok_detail=f"-> {PRESETS[chosen][1] if chosen else 'the textual form'} ({len(cases)} schemes)",
+                  bad_detail=f"{bad[0]}: returns {bad[1]!r}, expected {bad[2]!r}" if bad else "")
 
 
 def _check_scaling_concrete(res: Result, proj, cls, mul, rmul):
@@ -252,19 +253,30 @@ def check_equivalence(res: Result, proj, thorough: bool, rule: str):
                               f"(positive multiple on both vectors, first {stop} entries) says {mism[stop][3]}")
                   if mism[stop] else "")
     res.extra["equivalence_pairs_evaluated"] = count
-    for name, stop in (("is_equivalent_to", 6), ("is_equivalent_to_on_complete_rankings_only", 3)):
+    # the two public tests on real instances: tables equal (up to a factor) on the first three entries of both vectors
+    # and different afterwards separate "all six entries" from "the entries complete rankings use"
+    from .datamodel import World
+    w = World(proj)
+    A = [[0., 1., 1., 0., 1., 1.], [1., 1., 0., 1., 1., 0.]]
+    cases = [("same x2", [[0., 2., 2., 0., 2., 2.], [2., 2., 0., 2., 2., 0.]], True, True),
+             ("tail differs", [[0., 2., 2., 0., 2., 0.], [2., 2., 0., 4., 4., 0.]], False, True),
+             ("head differs", [[0., 2., 1., 0., 2., 2.], [2., 2., 0., 2., 2., 0.]], False, False),
+             ("T scaled differently", [[0., 2., 2., 0., 2., 2.], [1., 1., 0., 1., 1., 0.]], False, False)]
+    for name, col in (("is_equivalent_to", 2), ("is_equivalent_to_on_complete_rankings_only", 3)):
         m = proj.method(cls, name)
         res.saw(m)
-        body = m.body_without_docstring()
-        good = len(body) == 1 and isinstance(body[0], ast.Return) and isinstance(body[0].value, ast.Call) \
-            and isinstance(body[0].value.func, ast.Attribute) \
-            and proj.unmangle(body[0].value.func.attr) == "__is_equivalent_to_generic" \
-            and src(body[0].value.func.value) == "self" and len(body[0].value.args) == 2 \
-            and src(body[0].value.args[0]) == m.param_names[1] and isinstance(body[0].value.args[1], ast.Constant) \
-            and body[0].value.args[1].value == stop
-        res.check(good, rule, f"{name}:stop", m.loc(), ok_detail=f"compares the first {stop} entries of both vectors",
-                  bad_detail=f"does not call the generic test with (other, {stop}): {src(body[0]) if body else ''}")
-
+        bad = None
+        for label, other, *want in cases:
+            s1 = w.rt.new(cls, [[list(A[0]), list(A[1])]], {})
+            s2 = w.rt.new(cls, [[list(other[0]), list(other[1])]], {})
+            for x, y, tag in ((s1, s2, "A vs " + label), (s2, s1, label + " vs A")):
+                st, got = w.safe(name, w.call, x, name, y)
+                if st != "ok" or bool(got) != want[col - 2]:
+                    bad = bad or (tag, got, want[col - 2])
+        stop = 6 if col == 2 else 3
+        res.check(bad is None, rule, f"{name}:stop", m.loc(), ok_detail=f"compares the first {stop} entries of both vectors",
+                  bad_detail=f"{bad[0]} (A = unifying, other = {[c for c in cases if c[0] in bad[0]][0][1]}): answers {bad[1]!r}, "
+                             f"expected {bad[2]}" if bad else "")
 
 
 def _pool(thorough: bool) -> List:
